@@ -4,13 +4,24 @@
    the grant of the field read that precedes it (deque internals are not
    registered; justified by the deque theorems of C02).
    locs: 10+2t = scheduler t's schedule_from, 11+2t = store_to, 200+f = fiber f's state.
+   Fiber states: 0 none, 1 RUNNING, 2 READY, 3 WAITING, 5 SAVING_STATE_TO_WAIT.
+   inwq f (harness array inwq[], not a registered location): fiber f sits in a
+   wait queue outside the scheduler, i.e. it blocked and no waker has consumed
+   that yet.  wake / park-saving test-and-clear it in the grant of their read of
+   the state (the real wakers find a waiter by popping it from its wait queue).
+   park-saving f = a waker that finds f before f finished switching away: the
+   state is SAVING when f is scheduled; flip f = the maintenance of f's
+   successor (SAVING -> WAITING).  next() re-queues a popped SAVING fiber on
+   store_to and returns it only after the flip.  Fiber ids outside 1..NF are
+   refused by spawn / wake / park-saving / flip (ret -1, no access).
    Deque ids: 2t+1 = queue_one of t, 2t+2 = queue_two.  A deque is a list with
    the bottom at the head: push_bottom = cons, pop_bottom = head, steal = last. *)
 From Coq Require Import List ZArith Lia Bool Arith.
 From LF Require Import Conc.
 Import ListNotations.
 
-Inductive op := OSpawn (f : nat) | OYield | OBlock | OIdle | OWake (f : nat) | OBalance.
+Inductive op := OSpawn (f : nat) | OYield | OBlock | OIdle | OWake (f : nat) | OBalance
+              | OPark (f : nat) | OFlip (f : nat).
 
 Inductive pcT :=
 | PSpawnR (f : nat)                    (* f->state != 0 ? (the harness refuses to create a fiber twice) *)
@@ -27,6 +38,8 @@ Inductive pcT :=
 | PL2 (k : kont) (i : nat) (lc rc ms : nat) (stolen : nat)  (* push stolen on schedule_from *)
 | PI1 (nf : nat)                       (* idle: nf->state = RUNNING *)
 | PW1 (f : nat) | PW2 (f : nat)
+| PP1 (f : nat) | PP2 (f : nat)        (* park-saving: f->state == WAITING ? ; f->state = SAVING *)
+| PF1 (f : nat) | PF2 (f : nat)        (* flip: f->state == SAVING ? ; f->state = WAITING *)
 | Fin
 with kont :=                           (* who called next() / schedule() / load_balance() *)
 | KYield (st : Z)                      (* next() called from yield, st = state read before *)
@@ -40,7 +53,7 @@ with kont :=                           (* who called next() / schedule() / load_
 Record tst := { pc : pcT; cur : nat; prog : list op; opi : nat }.
 
 Record st := { dq : nat -> list nat; sfrom : nat -> nat; sto : nat -> nat;
-               fstt : nat -> Z; thr : nat -> tst; nthr : nat;
+               fstt : nat -> Z; inwq : nat -> bool; thr : nat -> tst; nthr : nat;
                to_store : bool (* true: schedule() pushes on store_to (repaired code); false: schedule_from (pinned code) *) }.
 
 Local Open Scope Z_scope.
@@ -53,33 +66,41 @@ Definition retev (t k : nat) (v : Z) : list Z := [Zn t; Zn k; 909; v].
 Local Close Scope Z_scope.
 
 Definition set_thr (s : st) (t : nat) (x : tst) : st :=
-  {| dq := dq s; sfrom := sfrom s; sto := sto s; fstt := fstt s; thr := upd (thr s) t x; nthr := nthr s; to_store := to_store s |}.
+  {| dq := dq s; sfrom := sfrom s; sto := sto s; fstt := fstt s; inwq := inwq s; thr := upd (thr s) t x; nthr := nthr s; to_store := to_store s |}.
 Definition set_dq (s : st) (d : nat) (l : list nat) : st :=
-  {| dq := upd (dq s) d l; sfrom := sfrom s; sto := sto s; fstt := fstt s; thr := thr s; nthr := nthr s; to_store := to_store s |}.
+  {| dq := upd (dq s) d l; sfrom := sfrom s; sto := sto s; fstt := fstt s; inwq := inwq s; thr := thr s; nthr := nthr s; to_store := to_store s |}.
 Definition set_fs (s : st) (f : nat) (v : Z) : st :=
-  {| dq := dq s; sfrom := sfrom s; sto := sto s; fstt := upd (fstt s) f v; thr := thr s; nthr := nthr s; to_store := to_store s |}.
+  {| dq := dq s; sfrom := sfrom s; sto := sto s; fstt := upd (fstt s) f v; inwq := inwq s; thr := thr s; nthr := nthr s; to_store := to_store s |}.
+Definition set_wq (s : st) (f : nat) (b : bool) : st :=
+  {| dq := dq s; sfrom := sfrom s; sto := sto s; fstt := fstt s; inwq := upd (inwq s) f b; thr := thr s; nthr := nthr s; to_store := to_store s |}.
 Definition set_from (s : st) (t : nat) (d : nat) : st :=
-  {| dq := dq s; sfrom := upd (sfrom s) t d; sto := sto s; fstt := fstt s; thr := thr s; nthr := nthr s; to_store := to_store s |}.
+  {| dq := dq s; sfrom := upd (sfrom s) t d; sto := sto s; fstt := fstt s; inwq := inwq s; thr := thr s; nthr := nthr s; to_store := to_store s |}.
 Definition set_to (s : st) (t : nat) (d : nat) : st :=
-  {| dq := dq s; sfrom := sfrom s; sto := upd (sto s) t d; fstt := fstt s; thr := thr s; nthr := nthr s; to_store := to_store s |}.
+  {| dq := dq s; sfrom := sfrom s; sto := upd (sto s) t d; fstt := fstt s; inwq := inwq s; thr := thr s; nthr := nthr s; to_store := to_store s |}.
 
 Definition with_pc (T : tst) (p : pcT) : tst := {| pc := p; cur := cur T; prog := prog T; opi := opi T |}.
 Definition with_cur (T : tst) (c : nat) : tst := {| pc := pc T; cur := c; prog := prog T; opi := opi T |}.
 
+Definition NF : nat := 32.                       (* size of the harness's fiber array *)
+Definition bad_id (f : nat) : bool := Nat.eqb f 0 || Nat.ltb NF f.
+
 (* begin the next calls of the program; calls that the harness refuses (yield
-   without a current fiber, idle with one) only emit ret -1.  Returns events + new thread state *)
+   without a current fiber, idle with one, a fiber id outside 1..NF) only emit
+   ret -1.  Returns events + new thread state *)
 Fixpoint start (t : nat) (c : nat) (p : list op) (k : nat) : list Z * tst :=
   match p with
   | [] => ([], {| pc := Fin; cur := c; prog := []; opi := k |})
   | o :: r =>
     let go pc0 := ([], {| pc := pc0; cur := c; prog := r; opi := k |}) in
     match o with
-    | OSpawn f => go (PSpawnR f)
+    | OSpawn f => if bad_id f then let '(e, T) := start t c r (S k) in (retev t k (-1) ++ e, T) else go (PSpawnR f)
     | OYield => if Nat.eqb c 0 then let '(e, T) := start t c r (S k) in (retev t k (-1) ++ e, T) else go PYRead
     | OBlock => if Nat.eqb c 0 then let '(e, T) := start t c r (S k) in (retev t k (-1) ++ e, T) else go PBlockW
     | OIdle => if Nat.eqb c 0 then go (PL1 KIdleLB) else let '(e, T) := start t c r (S k) in (retev t k (-1) ++ e, T)
-    | OWake f => go (PW1 f)
+    | OWake f => if bad_id f then let '(e, T) := start t c r (S k) in (retev t k (-1) ++ e, T) else go (PW1 f)
     | OBalance => go (PL1 KBalLB)
+    | OPark f => if bad_id f then let '(e, T) := start t c r (S k) in (retev t k (-1) ++ e, T) else go (PP1 f)
+    | OFlip f => if bad_id f then let '(e, T) := start t c r (S k) in (retev t k (-1) ++ e, T) else go (PF1 f)
     end
   end.
 
@@ -138,7 +159,7 @@ Definition lb_ret (s : st) (t : nat) (T : tst) (k : kont) : st * list Z :=
 Definition lb_continue (s : st) (t : nat) (T : tst) (k : kont) (i lc ms : nat) (rc : option nat) : st * list Z :=
   let n := nthr s in
   let '(dqs, r) := lb_scan (2 * n + 60) (dq s) n i (lb_iend t n) lc ms rc in
-  let s1 := {| dq := dqs; sfrom := sfrom s; sto := sto s; fstt := fstt s; thr := thr s; nthr := nthr s; to_store := to_store s |} in
+  let s1 := {| dq := dqs; sfrom := sfrom s; sto := sto s; fstt := fstt s; inwq := inwq s; thr := thr s; nthr := nthr s; to_store := to_store s |} in
   match r with
   | Some (i', lc', rc', ms', x) => (set_thr s1 t (with_pc T (PL2 k i' lc' rc' ms' x)), [])
   | None => lb_ret s1 t T k
@@ -163,7 +184,7 @@ Definition step (s : st) (t : nat) : st * list Z :=
       | KWake g => let '(e1, T') := finish t T (cur T) (Zn g) in (set_thr s1 t T', e ++ e1)
       | _ => (s1, e)
       end
-  | PBlockW => (set_thr (set_fs s (cur T) 3) t (with_pc T PYRead), ev t (l_fs (cur T)) 19 3)
+  | PBlockW => (set_thr (set_wq (set_fs s (cur T) 3) (cur T) true) t (with_pc T PYRead), ev t (l_fs (cur T)) 19 3)
   | PYRead => (set_thr s t (with_pc T (PN1 (KYield (fstt s (cur T))))), ev t (l_fs (cur T)) 9 (fstt s (cur T)))
   (* ---- fiber_scheduler_next ---- *)
   | PN1 k =>
@@ -225,9 +246,20 @@ Definition step (s : st) (t : nat) : st * list Z :=
       let '(e1, T') := finish t T nf (Zn nf) in (set_thr (set_fs s nf 1) t T', ev t (l_fs nf) 19 1 ++ e1)
   | PW1 f =>
       let e := ev t (l_fs f) 9 (fstt s f) in
-      if Z.eqb (fstt s f) 3 then (set_thr s t (with_pc T (PW2 f)), e)
+      if Z.eqb (fstt s f) 3 && inwq s f then (set_thr (set_wq s f false) t (with_pc T (PW2 f)), e)
       else let '(e1, T') := finish t T (cur T) 0%Z in (set_thr s t T', e ++ e1)
   | PW2 f => (set_thr (set_fs s f 2) t (with_pc T (PSched f (KWake f))), ev t (l_fs f) 19 2)
+  | PP1 f =>
+      let e := ev t (l_fs f) 9 (fstt s f) in
+      if Z.eqb (fstt s f) 3 && inwq s f then (set_thr (set_wq s f false) t (with_pc T (PP2 f)), e)
+      else let '(e1, T') := finish t T (cur T) 0%Z in (set_thr s t T', e ++ e1)
+  | PP2 f => (set_thr (set_fs s f 5) t (with_pc T (PSched f (KWake f))), ev t (l_fs f) 19 5)
+  | PF1 f =>
+      let e := ev t (l_fs f) 9 (fstt s f) in
+      if Z.eqb (fstt s f) 5 then (set_thr s t (with_pc T (PF2 f)), e)
+      else let '(e1, T') := finish t T (cur T) 0%Z in (set_thr s t T', e ++ e1)
+  | PF2 f =>
+      let '(e1, T') := finish t T (cur T) (Zn f) in (set_thr (set_fs s f 3) t T', ev t (l_fs f) 19 3 ++ e1)
   end.
 
 Definition status_of (s : st) (t : nat) : status :=
@@ -236,7 +268,7 @@ Definition status_of (s : st) (t : nat) : status :=
 Definition init (fixed : bool) (progs : list (list op)) : st * list Z :=
   let ths := map (fun tp => start (fst tp) 0 (snd tp) 1) (combine (seq 0 (length progs)) progs) in
   ({| dq := fun _ => []; sfrom := fun t => 2 * t + 1; sto := fun t => 2 * t + 2;
-      fstt := fun _ => 0%Z;
+      fstt := fun _ => 0%Z; inwq := fun _ => false;
       thr := fun t => snd (nth t ths ([], {| pc := Fin; cur := 0; prog := []; opi := 0 |}));
       nthr := length progs; to_store := fixed |},
    flat_map fst ths).
@@ -247,7 +279,8 @@ Definition M : machine :=
 Definition dec_op (p : Z * Z) : op :=
   match fst p with
   | 1%Z => OSpawn (Z.to_nat (snd p)) | 2%Z => OYield | 4%Z => OBlock | 3%Z => OIdle
-  | 5%Z => OWake (Z.to_nat (snd p)) | _ => OBalance
+  | 5%Z => OWake (Z.to_nat (snd p)) | 7%Z => OPark (Z.to_nat (snd p)) | 8%Z => OFlip (Z.to_nat (snd p))
+  | _ => OBalance
   end.
 
 (* params: drain bound, schedule target (1 = store_to, 0 = schedule_from) *)
